@@ -15,7 +15,7 @@ META = {
               "selected cuts; thorough: all (k,c) for T<=17 plus long shapes (16-bit length form, 2-byte token extension) "
               "with cuts around every boundary; oversize declarations. All non-steering bytes symbolic. WebSocket frame reader coap_ws_read: one call "
               "from every reader state (k bytes of the frame consumed) with every chunk length c (up to 3 bytes of the next frame), for frames "
-              "with payload 1, 2, 5 (quick) / 9, 126, 16-bit and 64-bit length forms (thorough), masked and unmasked; mask key, payload, next-frame bytes "
+              "with payload 1, 2, 5 (quick) / 9 and 3 bytes in the 16-bit and 64-bit length forms (thorough), masked and unmasked; mask key, payload, next-frame bytes "
               "and the stale data_ofs symbolic; 64-bit length declarations above the receive buffer (bit 63 set, all ones, datalen+1, 2^56).",
     "outside": "WebSocket: HTTP handshake splitter, zero-length frames (not a CoAP message; the reader stalls on them - noted in DESIGN 9.5), control frames, "
                "and how coap_read_session keeps the caller buffer between two calls (the harness keeps it); TLS record layer; streams of more than two "
@@ -102,7 +102,7 @@ def jobs():
     # WebSocket frame reader: one coap_ws_read() call from every reader state, per frame shape all (k, c) pairs inside one query
     wsu = ["coap_ws.c", "coap_threadsafe.c"]
     for plen, lform, masked, tier in ((1, 0, 1, "quick"), (2, 0, 1, "quick"), (2, 0, 0, "quick"), (5, 0, 1, "quick"), (9, 0, 1, "thorough"), (3, 1, 1, "thorough"),
-                                      (126, 1, 1, "thorough"), (3, 2, 0, "thorough")):
+                                      (3, 2, 0, "thorough")):    # (126, 16-bit form): 135 x 130 (k, c) pairs in one query - no verdict in 1500 s, not registered
         t = 2 + (0, 2, 8)[lform] + (4 if masked else 0) + plen
         js.append(Job("S3-ws-step@p%d-%s-%s" % (plen, ("len7", "len16", "len64")[lform], "masked" if masked else "unmasked"), "C05/c05w.c", "c05_s3_ws_step",
                       wsu, extra_src=["common/env.c"], defines=["PLEN=%d" % plen, "LFORM=%d" % lform, "MASKED=%d" % masked, "DATALEN=%d" % (200 if plen > 30 else 40), "ENV_LOG_QUIET"],
